@@ -1,5 +1,99 @@
-import ErdosVerif.Model.Sim
+import ErdosVerif.Lemmas.SimInv
+/-!
+# C08 — the CSV trace and the end-of-run counters tell the truth
+
+What is *proved* here, for all tasks, graphs, times and decision lists, about the pure
+functions the simulator model delegates its reporting to (`Sim.finishOut` for
+`__handle_task_finished`, `Sim.placedCount` / `Sim.unplacedCount` for the
+SCHEDULER_FINISHED row):
+
+* the TASK_FINISHED row carries the task's own completion time and deadline;
+* a MISSED_DEADLINE row is written **iff** the finish time is later than the deadline,
+  and exactly then the missed-deadline counter is incremented (by one);
+* TASK_GRAPH_FINISHED is written iff the graph is complete, exactly then the
+  finished-graph counter is incremented, and the missed-graph-deadline counter is
+  incremented iff additionally the deadline is earlier than the finish time;
+* the SCHEDULER_FINISHED row's placed + unplaced counts partition the PLACE_TASK decisions.
+
+PARTIAL: the whole-run statements (the SIMULATOR_END counters equal the number of
+corresponding rows / final task states; every trace is accepted by `CSVReader`) are not
+theorems: they are decided by the C08 oracle on runs of the real simulator (ground truth
+from the live `Task` objects and the project's own `CSVReader`), whose complete traces
+are compared row by row with this model.
+-/
 namespace ErdosVerif.C08
-open ErdosVerif.Model
-theorem placeholder : ET.taskFinished = 3 := rfl
+open ErdosVerif.Model ErdosVerif.Model.Sim
+
+def kindOf (r : Row) : String := r[1]?.getD ""
+
+/-- The first row is the TASK_FINISHED row and carries the task's true completion time
+and deadline (columns 5 and 6), the task and graph names. -/
+theorem finished_row_truthful (x : TaskS) (g : GraphS) (ts tl : String) (time : Int) :
+    (finishOut x g ts tl time).rows.head? =
+      some [istr time, "TASK_FINISHED", x.name, ts, g.name, istr x.completion, istr x.deadline, tl] := by
+  simp [finishOut]
+
+/-- **A deadline miss is reported exactly when the finish time is later than the
+deadline**, with the true deadline, and exactly then the counter is incremented. -/
+theorem missed_deadline_iff (x : TaskS) (g : GraphS) (ts tl : String) (time : Int) :
+    ((∃ r ∈ (finishOut x g ts tl time).rows, kindOf r = "MISSED_DEADLINE") ↔ time > x.deadline) ∧
+    ((finishOut x g ts tl time).dMissedTaskDeadlines = if time > x.deadline then 1 else 0) ∧
+    (∀ r ∈ (finishOut x g ts tl time).rows, kindOf r = "MISSED_DEADLINE" →
+       r = [istr time, "MISSED_DEADLINE", x.name, ts, istr x.deadline, tl]) := by
+  refine ⟨?_, rfl, ?_⟩
+  · by_cases h : time > x.deadline <;> by_cases h2 : g.isComplete <;> by_cases h3 : time > g.deadline <;>
+      simp [finishOut, h, h2, h3, kindOf]
+  · intro r hr hk
+    by_cases h : time > x.deadline <;> by_cases h2 : g.isComplete <;> by_cases h3 : time > g.deadline <;>
+      simp [finishOut, h, h2, h3] at hr <;>
+      (rcases hr with rfl | hr <;> try (rcases hr with rfl | hr) <;> try (rcases hr with rfl | hr)) <;>
+      simp_all [kindOf]
+
+/-- The task-graph rows and counters: TASK_GRAPH_FINISHED iff the graph is complete (and
+then one more finished graph); one more missed graph deadline iff, in addition, the graph
+deadline is earlier than the finish time. -/
+theorem graph_finished_iff (x : TaskS) (g : GraphS) (ts tl : String) (time : Int) :
+    ((∃ r ∈ (finishOut x g ts tl time).rows, kindOf r = "TASK_GRAPH_FINISHED") ↔ g.isComplete = true) ∧
+    ((finishOut x g ts tl time).dFinishedGraphs = if g.isComplete then 1 else 0) ∧
+    ((finishOut x g ts tl time).dMissedGraphDeadlines = if g.isComplete && g.deadline < time then 1 else 0) := by
+  refine ⟨?_, rfl, rfl⟩
+  by_cases h : time > x.deadline <;> by_cases h2 : g.isComplete <;> by_cases h3 : time > g.deadline <;>
+    simp [finishOut, h, h2, h3, kindOf]
+
+/-- Every row written for a finished task is one of the four kinds, stamped with the
+event time. -/
+theorem finish_rows_kinds (x : TaskS) (g : GraphS) (ts tl : String) (time : Int) :
+    ∀ r ∈ (finishOut x g ts tl time).rows, r.head? = some (istr time) ∧
+      (kindOf r = "TASK_FINISHED" ∨ kindOf r = "TASK_GRAPH_FINISHED" ∨ kindOf r = "MISSED_DEADLINE" ∨
+       kindOf r = "MISSED_TASK_GRAPH_DEADLINE") := by
+  intro r hr
+  by_cases h : time > x.deadline <;> by_cases h2 : g.isComplete <;> by_cases h3 : time > g.deadline <;>
+    simp [finishOut, h, h2, h3] at hr <;>
+    (rcases hr with rfl | hr <;> try (rcases hr with rfl | hr) <;> try (rcases hr with rfl | hr)) <;>
+    (try subst hr) <;> simp [kindOf]
+
+/-- **SCHEDULER_FINISHED counts are true**: placed + unplaced is the number of
+PLACE_TASK decisions (every such decision is counted once, on the right side). -/
+theorem scheduler_counts_partition (ps : List PlacementS) :
+    placedCount ps + unplacedCount ps = (ps.filter (fun p => p.kind == .place)).length := by
+  unfold placedCount unplacedCount
+  induction ps with
+  | nil => rfl
+  | cons p ps ih =>
+    simp only [List.filter_cons]
+    cases hk : (p.kind == PKind.place) <;> cases hp : p.isPlaced <;> simp [hk, hp] <;> omega
+
+/-- An unplaced PLACE_TASK decision is counted as unplaced, never as placed. -/
+theorem unplaced_counted (ps : List PlacementS) (p : PlacementS) (hp : p ∈ ps) (hk : p.kind = .place)
+    (hu : p.isPlaced = false) : 0 < unplacedCount ps := by
+  unfold unplacedCount
+  apply List.length_pos_of_mem (a := p)
+  simp [List.mem_filter, hp, hk, hu]
+
+/-- Non-vacuity. -/
+example : placedCount [⟨.place, ⟨0, 0⟩, 0, some 1, some 0, some 0, none⟩, ⟨.place, ⟨0, 1⟩, 0, none, none, none, none⟩,
+                       ⟨.cancel, ⟨0, 2⟩, 0, none, none, none, none⟩] = 1 ∧
+          unplacedCount [⟨.place, ⟨0, 0⟩, 0, some 1, some 0, some 0, none⟩, ⟨.place, ⟨0, 1⟩, 0, none, none, none, none⟩,
+                       ⟨.cancel, ⟨0, 2⟩, 0, none, none, none, none⟩] = 1 := by decide
+
 end ErdosVerif.C08
